@@ -101,7 +101,7 @@ func TestCheck(t *testing.T) {
 			if bulk {
 				mode = []string{"write-through", "periodic"}[(i/40)%2]
 			}
-			seq := genSequence(g, mode, bulk)
+			seq := genSequence(g, mode, bulk, i%12 == 5)
 			if seq.shards() > 2 {
 				r.Count("sequences_with_3_to_8_shards", 1)
 			}
